@@ -8,9 +8,9 @@
    parse_no_crash (Proofs/ParseDeclTotal.v) and the lexer fact C01_source_long_ok. *)
 From Coq Require Import List NArith ZArith.
 From Falco Require Gen.TokenTypes Model.ParseBase Model.Ast Model.ParseDecl Proofs.ParseExprTotal.
-From Falco Require Import Base.Res Base.Bytes Base.Utf8 Gen.Tokens Gen.LexOps Model.Lex Model.LexOps Model.Pump Model.LexSpec Model.LexParse
+From Falco Require Import Base.Res Base.Bytes Base.Utf8 Gen.Tokens Gen.LexOps Model.Lex Model.LexOps Model.Pump Model.PumpLx Model.LexSpec Model.LexLines Model.LexParse
   Proofs.LexTables Proofs.LexProgress Proofs.LexToken Proofs.PumpTotal Proofs.LexView Proofs.LexLocated Proofs.LexExtra
-  Proofs.LexOpen Proofs.LexOps Proofs.LexParse Proofs.LexTheorems Proofs.LexExamples Proofs.LexParseExamples.
+  Proofs.LexOpen Proofs.LexOps Proofs.LexLines Proofs.PumpRefine Proofs.LexParse Proofs.LexTheorems Proofs.LexExamples Proofs.LexParseExamples.
 Import ListNotations.
 
 (* Totality: for EVERY byte string the token loop (NextToken until the first EOF), run with the
@@ -53,6 +53,22 @@ Theorem C01_lex_located :
   forall s ts t, tokens s = OK ts -> In t ts -> designates (dec_all s) t.
 Proof. exact lex_located. Qed.
 
+(* The source line of a located position: if the text at (l, c) starts with txt then line l of the
+   decoded input ([get_line], the k-th line without its line feed - what Lexer.GetLine(k) returns,
+   checked against the real GetLine on every input) is c - 1 characters followed by the rest of
+   that line from there, which begins with txt.  For the tokens whose surface form is their
+   literal: the caret under column [tpos] of line [tline] points at the literal. *)
+Theorem C01_get_line_spec :
+  forall rs l c txt, at_text rs (l, c) txt ->
+  exists a suf, get_line rs l = Some (a ++ line_head (txt ++ suf)) /\ (N.of_nat (length a) + 1 = c)%N /\ (1 <= l)%N.
+Proof. exact get_line_spec. Qed.
+
+Theorem C01_token_line_spec :
+  forall s ts t, tokens s = OK ts -> In t ts -> plain_b (ttype t) = true ->
+  exists a suf, get_line (dec_all s) (tline t) = Some (a ++ line_head (tlit t ++ suf)) /\
+                (N.of_nat (length a) + 1 = tpos t)%N.
+Proof. exact token_line_spec. Qed.
+
 (* A position designates at most one place: the prefix in [at_text] is unique. *)
 Theorem C01_position_unique :
   forall rs pre1 suf1 pre2 suf2,
@@ -86,6 +102,15 @@ Proof. exact C01_pump_total_proof. Qed.
 Theorem C01_pump_no_crash :
   forall e ts n, is_eof e = true -> S (length ts) <= n -> pump_all n e ts <> Crash.
 Proof. exact C01_pump_no_crash_proof. Qed.
+
+(* REFINEMENT: Parser.ReadPeek run on the LEXER (Model/PumpLx.v: NextToken / PeekToken with the peek
+   queue, the lexer's fuel for each NextToken) delivers, for every byte string, exactly what
+   Model/Pump.v delivers on the lexer's token list - the pumped metas with their Leading comments,
+   nest levels and empty-line counts.  So every statement about [pump s] (totality, located tokens,
+   the parser half) is a statement about the code path the Go parser runs. *)
+Theorem C01_pump_refines_lexer :
+  forall s : list byte, exists ts, tokens s = OK ts /\ pump_lx (lex_fuel s) (S (length ts)) s = pump s.
+Proof. exact pump_refines_lexer. Qed.
 
 (* lexer + pump on every byte string *)
 Theorem C01_pump_source_returns : forall s : list byte, exists ms, pump s = OK ms /\ ms <> [].
@@ -166,6 +191,14 @@ Theorem C01_lex_char_follows_table :
   forall n st, ch st = c -> lex_char n st = interp tree st (line st) (idx st).
 Proof. exact lex_char_follows_table. Qed.
 
+(* ... also on the entries whose literal is read by a loop of reader.go: `/` (/=, // comment,
+   block comment, or SLASH) and `#` - 24 of 27 entries; the remaining three (`{`, the quote, EOF)
+   are tied by the differential run. *)
+Theorem C01_lex_char_follows_table_c :
+  forall c tree, In (c, tree) op_table -> simple_c tree = true ->
+  forall n st, ch st = c -> lex_char n st = interp_c n tree st (line st) (idx st).
+Proof. exact lex_char_follows_table_c. Qed.
+
 Theorem C01_token_types_distinct : nodup_b all_types = true /\ str_in [] all_types = false.
 Proof. exact types_distinct. Qed.
 
@@ -176,12 +209,15 @@ Print Assumptions C01_next_token_progress.
 Print Assumptions C01_lex_typed.
 Print Assumptions C01_lex_ends_with_eof.
 Print Assumptions C01_lex_located.
+Print Assumptions C01_get_line_spec.
+Print Assumptions C01_token_line_spec.
 Print Assumptions C01_position_unique.
 Print Assumptions C01_eof_stable.
 Print Assumptions C01_peek_then_next.
 Print Assumptions C01_peek_idempotent.
 Print Assumptions C01_pump_total.
 Print Assumptions C01_pump_no_crash.
+Print Assumptions C01_pump_refines_lexer.
 Print Assumptions C01_pump_source_returns.
 Print Assumptions C01_source_long_ok.
 Print Assumptions C01_parse_total.
@@ -193,4 +229,5 @@ Print Assumptions C01_keywords_documented.
 Print Assumptions C01_char_classes_documented.
 Print Assumptions C01_operator_table_documented.
 Print Assumptions C01_lex_char_follows_table.
+Print Assumptions C01_lex_char_follows_table_c.
 Print Assumptions C01_token_types_distinct.
